@@ -969,6 +969,49 @@ func pureFunctions(r *common.Run) {
 		c.valuesOps(o1, S2)
 		c.flush()
 	})
+	// long inputs: 6..17 distinct values with ONE value repeated at every later position — whatever
+	// number of distinct values an implementation switches strategies at (linear scan -> set), the
+	// repeated value sits on either side of the switch; second operands: none, the even values, the
+	// first half, everything
+	{
+		var longs [][]int
+		for d := 6; d <= 17; d++ {
+			for j := 0; j < d; j++ {
+				for p := j; p < d; p++ {
+					in := make([]int, 0, d+1)
+					for v := 1; v <= d; v++ {
+						in = append(in, v)
+						if v-1 == p {
+							in = append(in, j+1)
+						}
+					}
+					longs = append(longs, in)
+				}
+			}
+		}
+		r.Parallel(len(longs), func(i int) {
+			if r.Expired() {
+				return
+			}
+			c := &ctx{r: r, alphaK: k, npred: npred}
+			o1 := longs[i]
+			d := len(o1) - 1
+			var evens, half, all []int
+			for v := 1; v <= d; v++ {
+				all = append(all, v)
+				if v%2 == 0 {
+					evens = append(evens, v)
+				}
+				if v <= d/2 {
+					half = append(half, v)
+				}
+			}
+			c.binaryOps(o1, [][]int{nil, evens, half, all})
+			c.unaryOps(o1)
+			c.flush()
+		})
+		r.Cov("long_inputs", map[string]any{"inputs": len(longs), "shape": "1..d with one value repeated at every later position, d = 6..17"})
+	}
 	// histories: the caller keeps ONE s2 buffer and overwrites it in place between calls; every
 	// call must answer for the content the buffer has at the time of the call
 	{
